@@ -105,7 +105,9 @@ def check(pid, tier='quick', seed=0):
     # engine F: a static must-alias is reported as a violation only when the native snapshot monitor confirms it
     # (the analysis does not know which values are immutable); otherwise it is undecided and the monitor decides
     for v in list(refuted):
-        if (v.engine == 'F' or 'needs native confirmation' in str(v.detail)) and not any(v.fn.split('.')[-1] in json.dumps(f) for f in bfail):
+        keys = getattr(v, 'confirm', None) or [v.fn.split('.')[-1]]
+        if ((v.engine == 'F' and 'definite-write' not in str(v.detail)) or 'needs native confirmation' in str(v.detail)) \
+                and not any(any(k in json.dumps(f) for k in keys) for f in bfail):
             v.status = 'undecided'; v.detail = 'static must-alias not confirmed natively: ' + str(v.detail)
             refuted.remove(v); undecided.append(v)
     # ---- refuted deductive obligations -> violations (with replay where a failing input exists)
@@ -115,7 +117,8 @@ def check(pid, tier='quick', seed=0):
         if k:
             known_lines.append(f'KNOWN-FINDING: property={pid} {k["what"]}')
             continue
-        rel = [f for f in bfail if f.get('function') == v.fn or v.fn.split('.')[-1] in json.dumps(f.get('case', ''))]
+        keys = getattr(v, 'confirm', None) or [v.fn.split('.')[-1]]
+        rel = [f for f in bfail if f.get('function') == v.fn or any(k in json.dumps(f) for k in keys)]
         payload = dict(property=pid, kind='deductive', obligation=v.name, function=v.fn, engine=v.engine,
                        prover_output=str(v.detail), source_sha256=loader.hashes(loader.used_modules()))
         if rel:
